@@ -145,6 +145,45 @@ def rules(ctx: Ctx) -> None:
     # `s.t.c`: all must name the same relation)
     _imp8(ctx, "C02", {"R02.11": "R08.8"})
 
+    # ---- R08.7 whether a statement-local name is used, visible or shadowed is never decided by searching SQL text for it: `name in query_text`
+    # finds a name inside other identifiers, strings and comments, and misses it when the text spells it in another case or quoted - a renaming
+    # that changes neither the structure nor the references changes the answer.  (A literal searched in text - `"." in ref.raw` - is a test of
+    # the text's form and is not meant here.)
+    n_txt = 0
+    TEXT_ATTRS = ("raw", "raw_upper", "query_raw", "value", "normalized")
+    for f in prog.funcs.values():
+        if not (f.mod.name.startswith("sqllineage.core.parser") or f.mod.name in ("sqllineage.core.holders", "sqllineage.core.models")):
+            continue
+        for k in prog.walk_fn(f):
+            hay = needle = None
+            if isinstance(k, ast.Compare) and len(k.ops) == 1 and isinstance(k.ops[0], (ast.In, ast.NotIn)):
+                needle, hay = k.left, k.comparators[0]
+            elif isinstance(k, ast.Call) and isinstance(k.func, ast.Attribute) and k.func.attr in ("find", "rfind", "index", "count", "startswith", "endswith") and k.args:
+                needle, hay = k.args[0], k.func.value
+            if hay is None or isinstance(prog.try_fold(needle, f.mod, f), (str, tuple, list)):
+                continue
+            texty = [x for x in prog.influences(f, hay) if isinstance(x, ast.Attribute) and x.attr in TEXT_ATTRS]
+            if not texty:
+                continue
+            # the haystack must be text itself (a string), not a collection computed from text
+            ht = prog.infer(hay, f)
+            is_str = any(a.kind in ("str",) or (a.kind == "inst" and a.name in ("str", "builtins.str")) for a in ht.alts())
+            direct = isinstance(hay, ast.Attribute) and hay.attr in TEXT_ATTRS or (isinstance(hay, ast.Call) and isinstance(hay.func, ast.Attribute) and hay.func.attr in ("lower", "upper", "casefold", "strip") and any(isinstance(x, ast.Attribute) and x.attr in TEXT_ATTRS for x in prog.influences(f, hay.func.value)))
+            if not (is_str or direct):
+                srcs = [v for v in prog.value_sources(f, hay)] if isinstance(hay, ast.Name) else []
+                direct = any(isinstance(v, ast.Attribute) and v.attr in TEXT_ATTRS or (isinstance(v, ast.Call) and isinstance(v.func, ast.Attribute) and v.func.attr in ("lower", "upper", "casefold", "strip")
+                             and any(isinstance(x, ast.Attribute) and x.attr in TEXT_ATTRS for x in ast.walk(v.func.value))) for v in srcs)
+            if not (is_str or direct):
+                continue
+            named = any(isinstance(x, ast.Attribute) and x.attr in ("alias", "raw_name") for x in prog.influences(f, needle)) or any(
+                isinstance(x, ast.Call) and isinstance(x.func, ast.Name) and x.func.id in ("str", "escape_identifier_name") for x in prog.influences(f, needle))
+            if not named:
+                continue
+            n_txt += 1
+            ctx.ob("R08.7", f"names-are-not-searched-in-sql-text:{f.owner}", False, loc(f.mod, k),
+                   f"`{u(k)[:70]}` searches SQL text for a name: substring matches, case and quoting decide instead of the statement's structure")
+    ctx.ob("R08.7", "names-are-not-searched-in-sql-text:scanned", True, "sqllineage/core", f"{n_txt} textual search(es) for a name found", trivial=True)
+
 
 
 # ---- R08.6 -------------------------------------------------------------------------------------------------------------------
